@@ -48,4 +48,6 @@ def generate():
     from bip_utils import Secp256k1PublicKey, Ed25519PublicKey
     d("secp_compr_len", emit("nat", Secp256k1PublicKey.CompressedLength()))
     d("ed25519_compr_len", emit("nat", Ed25519PublicKey.CompressedLength()))
+    from bip_utils import Secp256k1Point
+    d("secp_coord_len", emit("nat", Secp256k1Point.CoordinateLength()))
     return {"AddrConsts.v": "\n".join(out) + "\n"}
